@@ -159,7 +159,7 @@ def main(argv=None):
     ap.add_argument("--tier", default=os.environ.get("VERIF_TIER", "quick"))
     ap.add_argument("--replay")
     ap.add_argument("--only")
-    ap.add_argument("-j", type=int, default=min(16, os.cpu_count() or 4))
+    ap.add_argument("-j", type=int, default=int(os.environ.get("VERIF_JOBS", 0)) or min(16, os.cpu_count() or 4))
     ap.add_argument("--no-evidence", action="store_true")
     a = ap.parse_args(argv)
     tier = a.tier if a.tier in ("quick", "thorough") else "quick"
